@@ -576,6 +576,14 @@ inductive AOp
   | restart
   deriving DecidableEq, Repr
 
+/-- `administrator.DefaultAdminMax`: the page size `reindexAdmins` asks for -/
+def adminMax : Int := 100
+
+/-- what the loop of `reindexAdmins` visits: `Find(cursor, DefaultAdminMax)` from the empty cursor,
+    page after page, until a page comes with an empty next cursor (not: until a page is short — a
+    listing of exactly 100·k administrators ends with a full page) -/
+def AColl.reindexList (A : AColl) : List Adm := (A.pages adminMax (A.sorted.length + 1)).flatten
+
 namespace Auth
 
 /-- `removeAdmin` (lock held) -/
@@ -714,7 +722,7 @@ def step (v : Variant) (f : Faults) (s0 : Auth) (op : AOp) : Auth × AuthOut :=
       if v.fixReindex ∧ renamed then
         -- `reindexAdmins`: a new admin collection over the updated provisioner collection, every
         -- cached admin stored again (paged `Find` = the listing, `admin_paging_exact`); no database read
-        match buildCache.goA s.cache.P {} s.cache.A.sorted with
+        match buildCache.goA s.cache.P {} s.cache.A.reindexList with
         | some A => ({ s with cache := { s.cache with A := A } }, .ok)
         | none => (s, .cacheFailed)
       else if v.fixRename ∧ renamed then afterFail f s .ok else (s, .ok)
@@ -1121,24 +1129,24 @@ provisioners.go and policy.go with go/ast on every run and compared with this ta
 (stage `routes`, lines `order …`). `Auth.step` was written from this order. -/
 
 def writeOrder : List (String × List String) := [
-  ("StoreAdmin", ["admins.LoadBySubProv", "adminDB.CreateAdmin", "admins.Store", "ReloadAdminResources"]),
-  ("UpdateAdmin", ["admins.Update", "adminDB.UpdateAdmin", "ReloadAdminResources"]),
-  ("RemoveAdmin", ["removeAdmin"]),
+  ("StoreAdmin", ["adminMutex.Lock", "admins.LoadBySubProv", "adminDB.CreateAdmin", "admins.Store", "ReloadAdminResources"]),
+  ("UpdateAdmin", ["adminMutex.Lock", "admins.Update", "adminDB.UpdateAdmin", "ReloadAdminResources"]),
+  ("RemoveAdmin", ["adminMutex.Lock", "removeAdmin"]),
   ("removeAdmin", ["admins.Remove", "adminDB.DeleteAdmin", "ReloadAdminResources"]),
-  ("StoreProvisioner", ["ProvisionerToCertificates", "provisioners.LoadByName", "provisioners.LoadByTokenID",
+  ("StoreProvisioner", ["adminMutex.Lock", "ProvisionerToCertificates", "provisioners.LoadByName", "provisioners.LoadByTokenID",
     "generateProvisionerConfig", "checkProvisionerPolicy", "certProv.Init", "adminDB.CreateProvisioner",
     "ProvisionerToCertificates", "certProv.Init", "provisioners.Store", "ReloadAdminResources"]),
-  ("UpdateProvisioner", ["ProvisionerToCertificates", "generateProvisionerConfig", "provisioners.Load",
+  ("UpdateProvisioner", ["adminMutex.Lock", "ProvisionerToCertificates", "generateProvisionerConfig", "provisioners.Load",
     "checkProvisionerPolicy", "certProv.Init", "provisioners.Update", "adminDB.UpdateProvisioner",
     "ReloadAdminResources", "reindexAdmins"]),
-  ("RemoveProvisioner", ["provisioners.Load", "admins.SuperCount", "admins.SuperCountByProvisioner",
+  ("RemoveProvisioner", ["adminMutex.Lock", "provisioners.Load", "admins.SuperCount", "admins.SuperCountByProvisioner",
     "admins.LoadByProvisioner", "removeAdmin", "provisioners.Remove", "adminDB.DeleteProvisioner",
     "ReloadAdminResources"]),
-  ("CreateAuthorityPolicy", ["checkAuthorityPolicy", "adminDB.CreateAuthorityPolicy", "reloadPolicyEngines",
+  ("CreateAuthorityPolicy", ["adminMutex.Lock", "checkAuthorityPolicy", "adminDB.CreateAuthorityPolicy", "reloadPolicyEngines",
     "enforceAuthorityPolicy"]),
-  ("UpdateAuthorityPolicy", ["checkAuthorityPolicy", "adminDB.UpdateAuthorityPolicy", "reloadPolicyEngines",
+  ("UpdateAuthorityPolicy", ["adminMutex.Lock", "checkAuthorityPolicy", "adminDB.UpdateAuthorityPolicy", "reloadPolicyEngines",
     "enforceAuthorityPolicy"]),
-  ("RemoveAuthorityPolicy", ["adminDB.DeleteAuthorityPolicy", "reloadPolicyEngines", "enforceAuthorityPolicy"])]
+  ("RemoveAuthorityPolicy", ["adminMutex.Lock", "adminDB.DeleteAuthorityPolicy", "reloadPolicyEngines", "enforceAuthorityPolicy"])]
 
 /-- calls that can refuse the request without having changed anything -/
 def isCheckCall (c : String) : Bool :=
